@@ -116,6 +116,10 @@ Catalogue ==
     multi_map |-> Multi(Map(V1, <<"a">>), Map(V2, <<"a">>)),
     map_multi |-> Map(Multi(V1, V2), <<"a">>),
     f_multi   |-> Filter(Overlay(V2, V1), [t |-> "ext", x |-> ".proto"]),
+    \* a combinator nested directly inside the other one keeps its own mode: the union inside an overlay still
+    \* reports its duplicates, the overlay inside a union still hides them
+    ov_multi  |-> Overlay(Multi(V1, V2), Map(V1, <<"b">>)),
+    multi_ov  |-> Multi(Overlay(V1, V2), Map(V2, <<"a">>)),
     strip     |-> StripV(V1),
     strip_map |-> StripV(Map(V1, <<"b">>)) ]
 ViewNames == DOMAIN Catalogue
